@@ -81,7 +81,8 @@ class EventManager:
             new_event = TemporalEvent(group, event_index, start_time)
             end_time = new_event.end_time
             # Todo: This may need updating.  end_index==len(self.onsets) in the edge
-            end_index = bisect.bisect_left(self.onsets, end_time)
+            # A row within the onset tolerance of the end is the time point at which the process ends.
+            end_index = bisect.bisect_left(self.onsets, end_time - 1e-9)
             new_event.set_end(end_index, end_time)
             self.event_list[event_index].append(new_event)
             to_remove.append(group)
